@@ -156,6 +156,9 @@ def run_rc(pid, tier, seed, replay=None):
     env = san_env(P.get("leaks", False))
     for k, v in P.get("env", {}).items():
         env[k] = v
+    if P.get("needs_cli"):
+        # the property also speaks about the command-line tools: ASan build of cli/*.c from the same tree
+        env["VERIF_CLI_DIR"] = ybuild.build_cli("asan")
     work = tempfile.mkdtemp(prefix="verif-%s-" % pid, dir=os.path.join(VERIF, "build"))
     os.makedirs(FAIL, exist_ok=True)
     known_path = os.path.join(work, "known.txt")
